@@ -7,8 +7,8 @@ sd=$1; shift
 name=st-$(basename "$sd" | tr -c 'A-Za-z0-9\n' '-')
 props="$*"
 [ -n "$props" ] || props=$(python3 -c "import json,sys; print(json.load(open('$sd/meta.json'))['property'])")
-d=$(tools/mkworktree.sh "$name")
 trap 'tools/rmworktree.sh "$name"' EXIT
+d=$(tools/mkworktree.sh "$name")
 git -C "$d" apply "$(pwd)/$sd/patch.diff"
 for p in $props; do
   if out=$(VERIF_REPO=$d ./check "$p" --tier ${TIER:-quick} 2>/dev/null); then echo "MISSED $sd $p: $out" | tail -1; else echo "DETECTED $sd $p: $(echo "$out" | grep VIOLATION | head -1)"; fi
